@@ -344,7 +344,7 @@ def gen_runs(quick):
             ("dup N<=3", dict(N=3, K=2, Leaves='{"string"}', UKinds='{"user"}', Modes='{"dup"}', Decos="{3}", Script='"copyfirst"')),
             ("dup N<=3 results", dict(N=3, K=2, Leaves='{"string"}', UKinds='{"result"}', Modes='{"dup"}', Decos="{2}", Script='"paired"')),
             # 5 nodes: every graph with DAG sharing, the sharing transformations only
-            ("aliased attributes N<=4", dict(N=4, K=2, Leaves='{"string"}', UKinds='{"user", "result"}', Modes='{"hash", "dup"}', Decos="{0, 3}",
+            ("aliased attributes N<=4", dict(N=4, K=2, Leaves='{"string"}', UKinds='{"user"}', Modes='{"hash", "dup"}', Decos="{3}",
                                              Shapes='"aliased"', MaxSteps=1, Script='"paired"')),
             ("hash sharing N<=5", dict(N=5, K=2, Leaves='{"string"}', UKinds='{"user"}', Modes='{"hash"}', Decos="{0}",
                                        Shapes='"shared"', Ops='"sharing"')),
